@@ -46,7 +46,7 @@ def body(run):
                 mbm = 1e6
             else:
                 raise
-        desc = dict(family=family, geom=pair['geom'].describe(), bands=nb, src_bands=sb, ref_bands=rb, max_block_mem=mbm, threads=threads,
+        desc = dict(family=family, geom=pair['geom'].describe(), src_encoding=pair['src_encoding'], ref_encoding=pair['ref_encoding'], bands=nb, src_bands=sb, ref_bands=rb, max_block_mem=mbm, threads=threads,
                     blocks=res['nblocks'], stats={k2: {f: float(v) for f, v in d.items()} for k2, d in res['stats'].items()})
         key = f'{family}/bands={nb}/blocks={"1" if res["nblocks"] == 1 else ">1"}'
         dist[key] = dist.get(key, 0) + 1
